@@ -29,8 +29,9 @@ HASHSEEDS = [1, 2]
 
 S1, S2 = 0x1111, 0x2222
 X, Y, Z, W = (S1, 1, 1, 0), (S1, 2, 1, 0), (S2, 1, 1, 5), (S1, 1, 2, 0)
-KEYS = [X, Y, Z, W]
-FILTERS = [[S1, 0xFFFF, 0xFF, 0xFFFFFFFF], [S1, 1, 1, 0xFFFFFFFF], [S2, 0xFFFF, 1, 5], [S1, 2, 0xFF, 0]]
+X7 = (S1, 1, 1, 7)  # same service / instance / major as X, another minor version
+KEYS = [X, Y, Z, W, X7]
+FILTERS = [[S1, 0xFFFF, 0xFF, 0xFFFFFFFF], [S1, 1, 1, 0xFFFFFFFF], [S2, 0xFFFF, 1, 5], [S1, 2, 0xFF, 0], [S1, 1, 1, 7]]
 NSYM = 21
 SWEEP_LEN = {"quick": 3, "thorough": 4}
 RANDOM_RUNS = {"quick": 40000, "thorough": 3000000}
